@@ -131,6 +131,8 @@ def run(ck):
     cols_rule(ck, prog)
     from . import width
     width.run(ck, prog)   # a proof of an ordinary legal configuration survives serialization: no length prefix truncates
+    from . import derived
+    derived.run(ck, prog, None)
     c15.layer_count_rule(ck, prog)
     # transcript agreement: both sides are checked against the one documented event order (rules E1.*/E3.* of C04)
     c04.run(ck)
@@ -181,6 +183,16 @@ def _eval_expr(e, leaf):
         if op in ("lt", "le", "gt", "ge", "eq", "ne") and len(vs) == 2:
             return int({"lt": vs[0] < vs[1], "le": vs[0] <= vs[1], "gt": vs[0] > vs[1], "ge": vs[0] >= vs[1], "eq": vs[0] == vs[1], "ne": vs[0] != vs[1]}[op])
         return None
+    if e[0] == "call" and isinstance(e[1], str) and len(e[2]) == 2 and e[1].split("::")[-1] in ("div_ceil", "div_floor", "div_euclid", "rem_euclid", "pow"):
+        a, b = (_eval_expr(x, leaf) for x in e[2])
+        if a is None or b is None:
+            return None
+        name = e[1].split("::")[-1]
+        if name == "pow":
+            return a ** b if 0 <= b <= 64 else None
+        if b == 0:
+            return None
+        return {"div_ceil": -(-a // b), "div_floor": a // b, "div_euclid": a // b, "rem_euclid": a % b}[name]
     return leaf(e)
 
 
